@@ -179,7 +179,7 @@ fn run(ctx: &Ctx, env: &Env) -> Stats {
             }
         }
     }
-    let n_rand = ctx.t(15_000u64, 500_000);
+    let n_rand = ctx.t(15_000u64, 1_000_000);
     for j in 0..16 {
         jobs.push(Box::new(move |ctx: &Ctx| {
             let mut part = Part::new(ctx, format!("random/streams/{}", j), "proptest byte strings decoded into item streams; every cut 0..=words is executed", false);
